@@ -4,23 +4,34 @@
 (* A Cfg line starts a new scenario (monitor reset).  Broken clauses are printed *)
 (* as VIOL json, the run ends with ACCEPTED <lines>.                             *)
 EXTENDS OtlpRetryContract, TraceKit
-VARIABLES l, m, cur
-vars == <<l, m, cur>>
-NoCfg == [proto |-> "http", enabled |-> FALSE, maxel |-> 0, boffmax |-> 0, tol |-> 0, atto |-> 0, tick |-> 1, want |-> NoWant]
+VARIABLES l, m, cur, grps
+vars == <<l, m, cur, grps>>
+NoCfg == [proto |-> "http", enabled |-> FALSE, maxel |-> 0, boffmax |-> 0, tol |-> 0, atto |-> 0, cto |-> 0, tick |-> 1,
+          want |-> NoWant, nhdr |-> 0, enc |-> "none", grp |-> 0]
 (* largest interval the exponential backoff can produce: 1.5 x max(InitialInterval, MaxInterval) *)
 CfgOf(e) == [proto |-> e.proto, enabled |-> e.enabled, maxel |-> e.maxel,
              boffmax |-> (3 * Max(e.initial, e.maxint)) \div 2 + 1,
-             tol |-> e.tol, atto |-> e.atto, tick |-> e.tick, want |-> e.want]
-Init == l = 1 /\ m = Fresh(NoCfg) /\ cur = -1
+             tol |-> e.tol, atto |-> e.atto, cto |-> e.cto, tick |-> e.tick, want |-> e.want,
+             nhdr |-> e.nhdr, enc |-> e.enc, grp |-> e.grp]
+(* scenarios of one group run the same exporter and script and differ in the exporter-option dimension only:
+   the outcome must not depend on it (soft: believed when the whole group repeats it) *)
+Summary(mm) == [attempts |-> mm.n, ret |-> mm.ret, handled |-> Cardinality(mm.handled)]
+Put(f, k, v) == [x \in (DOMAIN f) \cup {k} |-> IF x = k THEN v ELSE f[x]]
+Init == l = 1 /\ m = Fresh(NoCfg) /\ cur = -1 /\ grps = <<>>
 TStep == /\ l <= Len(Trace)
          /\ LET e == Trace[l] IN
             IF e.ev = "Cfg"
-              THEN m' = Fresh(CfgOf(e)) /\ cur' = e.sc
+              THEN m' = Fresh(CfgOf(e)) /\ cur' = e.sc /\ UNCHANGED grps
               ELSE IF e.sc # cur
-              THEN UNCHANGED <<m, cur>>
-              ELSE LET r == Step(m, e) IN
+              THEN UNCHANGED <<m, cur, grps>>
+              ELSE LET r == Step(m, e)
+                       g == m.cfg.grp
+                       grouped == e.ev = "End" /\ g # 0 IN
                    /\ m' = r[1] /\ UNCHANGED cur
                    /\ \A v \in r[2] : Viol([line |-> l, sc |-> e.sc, v |-> v])
+                   /\ grps' = IF grouped /\ g \notin DOMAIN grps THEN Put(grps, g, Summary(m)) ELSE grps
+                   /\ (grouped /\ g \in DOMAIN grps /\ grps[g] # Summary(m))
+                        => Viol([line |-> l, sc |-> e.sc, v |-> V("cfg-dependent-outcome", TRUE, m, g)])
          /\ l' = l + 1
 TDone == l = Len(Trace) + 1 /\ Accepted(l) /\ UNCHANGED vars
 Next == TStep \/ TDone
